@@ -50,7 +50,7 @@ theorem Acct.drvOp {s s' : St} {ob : Obs} {sendOk : Bool} (h : Acct s) (hr : Rou
               intro m hm; unfold dropIf at hm; split at hm
               · cases hm
               · exact hm
-            refine Acct.dead_of (s := s) (s' := Conn.endDriver _ .endedErr) h (by simp [Conn.endDriver]) rfl rfl rfl rfl
+            refine Acct.dead_of (s := s) (s' := Conn.endDriver _ .endedErr) h (by simp [Conn.endDriver]) rfl rfl rfl rfl rfl
               (by simp only [Conn.endDriver, List.length_mapIdx]; show (dropSender ops0 i).length = _
                   rw [dropSender, modifyOp_length, hlen0]) ?_
             intro j o' ho'
